@@ -54,6 +54,10 @@ func (vc *VC) funcConst(f *ssa.Function) Term {
 	if !vc.uf[name] {
 		vc.uf[name] = true
 		vc.constDecls = append(vc.constDecls, fmt.Sprintf("(declare-const %s Fn)", name))
+		if vc.fnConsts == nil {
+			vc.fnConsts = map[string]*Contract{}
+		}
+		vc.fnConsts[name] = vc.P.contractOf(f)
 		// needswrite(f): the contract of f demands a non-static context (a requires clause labelled
 		// "notstatic"); known for every function under contract, unknown otherwise
 		if con := vc.P.contractOf(f); con != nil {
